@@ -55,13 +55,15 @@ def builder(seed, n, defaults):
     while len(cases) < n:
         method = methods[g % len(methods)]
         kind = ["plain", "interrupt", "noop", "double", "modify"][g % 5]
-        fams = [gen.fam_linear] if kind == "double" else None
+        fams = [gen.fam_linear] if kind == "double" else ([gen.fam_vdp, gen.fam_bump, gen.fam_bump, gen.fam_discont, gen.fam_sho] if kind == "noop" else None)
         kw, meta = sweep.base_case(rng, g, method, defaults, fams=fams)
         prob = kw["prob"]
         rt = kw["rtol"] if isinstance(kw["rtol"], float) else kw["rtol"][0]
         at = kw["atol"] if isinstance(kw["atol"], float) else kw["atol"][0]
         if rt == 0.0:
             rt = 1e-6
+        if kind == "noop":
+            rt, at = rng.choice([(1e-6, 1e-9), (1e-5, 1e-8), (1e-8, 1e-10)])
         if kind == "double":
             at = 0.0
             prob = dict(prob); prob["y0"] = [v if abs(v) > 0.05 else 0.5 for v in prob["y0"]]
@@ -75,7 +77,10 @@ def builder(seed, n, defaults):
         if kind == "interrupt":
             variants.append(("int", [(k, "I", 0.0)]))
         elif kind == "noop":
-            idxs = sorted(set(rng.randint(0, 8) for _ in range(rng.randint(1, 3))))
+            if rng.random() < 0.5:
+                idxs = sorted(set(rng.randint(0, 8) for _ in range(rng.randint(1, 3))))
+            else:
+                idxs = list(range(0, 400))     # every callback: in particular the steps that follow a rejection
             variants.append(("noop", [(i, "N", 0.0) for i in idxs]))
         elif kind == "double":
             variants.append(("dbl", [(k, "M", 2.0)]))
@@ -87,6 +92,20 @@ def builder(seed, n, defaults):
             cases.append(ll_case(cid, script=script, **common_kw))
             metas[cid] = (m2, common_kw)
         g += 1
+    # dedicated: ModifiedSolution (state unchanged) at every callback on problems with hard rejections followed by easy
+    # retries -- the step right after a rejection is where controller memory (reject flag, facold) matters
+    for j in range(max(12, n // 6)):
+        method = ["DOPRI5", "DOP853", "RK23", "RADAU"][j % 4]
+        prob = gen.fam_bump(rng)
+        rt, at = rng.choice([(1e-6, 1e-9), (1e-5, 1e-8), (1e-7, 1e-10), (1e-4, 1e-7)])
+        xe = prob["span"] * (1 if rng.random() < 0.7 else -1)
+        ckw = dict(method=method, prob=prob, x0=0.0, xend=xe, rtol=rt, atol=at, defaults=defaults, use_jac=False, full=True)
+        for name, script in (("base", []), ("noop", [(i, "N", 0.0) for i in range(0, 3000)])):
+            cid = "r%d_%s" % (j, name)
+            m2 = {"family": "bump", "n": 2, "backward": xe < 0, "tolmode": "mixed", "method": method, "group": "r%d" % j,
+                  "variant": name, "kind": "noop", "k": 0, "script": script}
+            cases.append(ll_case(cid, script=script, **ckw))
+            metas[cid] = (m2, ckw)
     return cases, metas
 
 
